@@ -1875,6 +1875,23 @@ where
                             if ann.node == *remote {
                                 continue;
                             }
+                            // Only send refs announcements of repositories we have if the remote
+                            // is allowed to know about them.
+                            if let AnnouncementMessage::Refs(RefsAnnouncement { rid, .. }) =
+                                &ann.message
+                            {
+                                let visible = self
+                                    .storage
+                                    .get(*rid)
+                                    .ok()
+                                    .flatten()
+                                    .map(|doc| doc.is_visible_to(&(*remote).into()))
+                                    .unwrap_or(true);
+
+                                if !visible {
+                                    continue;
+                                }
+                            }
                             // Only send messages if we're a relay, or it's our own messages.
                             if relay || ann.node == local {
                                 self.outbox.write(peer, ann.into());
